@@ -27,7 +27,7 @@ func init() {
 			"Oracle per execution from logical-clock logs: no deadlock; <= 1 message per publish call and subscriber; <= 1 clean-up per subscriber (exactly 1 if it is gone at the end); no delivery after the unsubscribe call that removed the subscriber returned; " +
 			"a publish started after a subscribe returned reaches that subscriber if it stays registered; returned counts = deliveries made; final registry = that of some sequential order consistent with real time; failure-free histories fully linearizable. " +
 			"distinct = schedules executed; non-trivial = schedules with at least one contended acquisition or one preemption",
-		Technique:      "stateless model checking of the real implementation: exhaustive enumeration of thread interleavings up to a preemption bound under a cooperative scheduler over a sync shim (go build -overlay)",
+		Technique:      "stateless model checking of the real implementation: exhaustive enumeration of thread interleavings (quick: preemption bound 2; thorough: all interleavings, plus a fine-grained pass with Unlock as a choice point) under a cooperative scheduler over a sync shim (go build -overlay), with vector-clock happens-before race checking of every instrumented memory access on every schedule",
 		Assumptions:    []string{"between two Lock operations a goroutine touches only private state or state guarded by a lock it holds (the data-race conjunct, checked by the separate free-running -race pass bin/race.sh)", "Lock-only choice points (DESIGN 3.3)"},
 		QuickBudget:    100 * time.Second,
 		ThoroughBudget: 25 * time.Minute,
@@ -347,7 +347,7 @@ func c20Scenarios(thorough bool) []c20Scenario {
 func runC20(c *core.Ctx) {
 	bound := 2
 	if c.Thorough() {
-		bound = 3
+		bound = -1 // unbounded: EVERY interleaving of the lock acquisitions (the threads are short enough to finish)
 	}
 	scenarios := c20Scenarios(c.Thorough())
 	completed := true
@@ -379,218 +379,240 @@ func runC20(c *core.Ctx) {
 			break
 		}
 		outcomes := map[string]bool{}
-		ex := &core.Explorer{Bound: bound, MaxRun: 400000, Stop: c.Expired}
-		var nsched int64
-		failureFree := true
-		for _, s := range sc.Initial {
-			if s.Kind != 0 {
-				failureFree = false
-			}
+		// thorough: a second pass with Unlock as a choice point too (fine mode, preemption bound 2) cross-checks the Lock-only
+		// reduction the first pass relies on
+		type pass struct {
+			fine  bool
+			bound int
 		}
-		for _, th := range sc.Threads {
-			for _, cl := range th {
-				if cl.Kind == "subscribe" && cl.Sub != 0 {
+		passes := []pass{{false, bound}}
+		if c.Thorough() {
+			passes = append(passes, pass{true, 2})
+		}
+		for _, ps := range passes {
+			fine := ps.fine
+			ex := &core.Explorer{Bound: ps.bound, MaxRun: 2000000, Stop: c.Expired}
+			var nsched int64
+			failureFree := true
+			for _, s := range sc.Initial {
+				if s.Kind != 0 {
 					failureFree = false
 				}
 			}
-		}
-		ex.Explore(func(ch *core.Chooser) {
-			nsched++
-			c.Eval()
-			c.R.Distinct++
-			core.Announce("C20 scenario " + sc.Name)
-			w := newC20World(sc.Initial)
-			w.reflectE = reflectE
-			var recs []*c20CallRec
-			bodies := make([]func(*sched.Sched), len(sc.Threads))
-			for ti, th := range sc.Threads {
-				ti, th := ti, th
-				bodies[ti] = func(s *sched.Sched) {
-					w.s = s
-					for ci, cl := range th {
-						recs = append(recs, w.perform(ti, ci, cl))
+			for _, th := range sc.Threads {
+				for _, cl := range th {
+					if cl.Kind == "subscribe" && cl.Sub != 0 {
+						failureFree = false
 					}
 				}
 			}
-			res := sched.Run(ch, false, bodies...)
-			w.s = nil
-			if res.Contended > 0 || res.Preemptions > 0 {
-				c.Nontrivial()
-			}
-			c.CountN("contended_acquisitions", int64(res.Contended))
-			detail := func(msg string) map[string]interface{} {
-				var rs []map[string]interface{}
+			ex.Explore(func(ch *core.Chooser) {
+				nsched++
+				c.Eval()
+				c.R.Distinct++
+				core.Announce("C20 scenario " + sc.Name)
+				w := newC20World(sc.Initial)
+				w.reflectE = reflectE
+				var recs []*c20CallRec
+				bodies := make([]func(*sched.Sched), len(sc.Threads))
+				for ti, th := range sc.Threads {
+					ti, th := ti, th
+					bodies[ti] = func(s *sched.Sched) {
+						w.s = s
+						for ci, cl := range th {
+							recs = append(recs, w.perform(ti, ci, cl))
+						}
+					}
+				}
+				res := sched.Run(ch, fine, bodies...)
+				w.s = nil
+				if fine {
+					c.Count("fine_mode_schedules")
+				}
+				if res.Contended > 0 || res.Preemptions > 0 {
+					c.Nontrivial()
+				}
+				c.CountN("contended_acquisitions", int64(res.Contended))
+				detail := func(msg string) map[string]interface{} {
+					var rs []map[string]interface{}
+					for _, r := range recs {
+						rs = append(rs, map[string]interface{}{"thread": r.Thread, "call": r.Call.String(), "start": r.Start, "end": r.End, "returned": r.Cnt, "error": r.Err, "sends": r.Sends, "cleanups": r.Cleanups})
+					}
+					return map[string]interface{}{"scenario": sc.Name, "schedule": res.Schedule, "choices": ch.Trace, "calls": rs, "diff": msg, "preemptions": res.Preemptions}
+				}
+				attrs := func(what string) map[string]string { return map[string]string{"what": what} }
+				if mem {
+					reportRaces(c, res, map[string]string{}, func() map[string]interface{} { return detail("data race") })
+				}
+				if len(res.Panics) > 0 {
+					for _, p := range res.Panics {
+						if strings.HasPrefix(p, "ENGINE: ") {
+							panic(core.EngineError{Msg: p})
+						}
+						c.Violation("panic", map[string]string{"class": classifyPanic(p)}, detail(p))
+					}
+					return
+				}
+				if res.Deadlock {
+					c.Outcome("deadlock")
+					c.Violation("deadlock", attrs("no-enabled-thread"), detail(fmt.Sprintf("threads %v blocked forever", res.Blocked)))
+					return
+				}
+				if res.Horizon {
+					c.Cap("step horizon reached in " + sc.Name)
+					return
+				}
+				// (1) at most one message per publish call and subscriber; returned count = deliveries made
 				for _, r := range recs {
-					rs = append(rs, map[string]interface{}{"thread": r.Thread, "call": r.Call.String(), "start": r.Start, "end": r.End, "returned": r.Cnt, "error": r.Err, "sends": r.Sends, "cleanups": r.Cleanups})
-				}
-				return map[string]interface{}{"scenario": sc.Name, "schedule": res.Schedule, "choices": ch.Trace, "calls": rs, "diff": msg, "preemptions": res.Preemptions}
-			}
-			attrs := func(what string) map[string]string { return map[string]string{"what": what} }
-			if mem {
-				reportRaces(c, res, map[string]string{}, func() map[string]interface{} { return detail("data race") })
-			}
-			if len(res.Panics) > 0 {
-				for _, p := range res.Panics {
-					if strings.HasPrefix(p, "ENGINE: ") {
-						panic(core.EngineError{Msg: p})
+					if r.Call.Kind != "publish" {
+						continue
 					}
-					c.Violation("panic", map[string]string{"class": classifyPanic(p)}, detail(p))
-				}
-				return
-			}
-			if res.Deadlock {
-				c.Outcome("deadlock")
-				c.Violation("deadlock", attrs("no-enabled-thread"), detail(fmt.Sprintf("threads %v blocked forever", res.Blocked)))
-				return
-			}
-			if res.Horizon {
-				c.Cap("step horizon reached in " + sc.Name)
-				return
-			}
-			// (1) at most one message per publish call and subscriber; returned count = deliveries made
-			for _, r := range recs {
-				if r.Call.Kind != "publish" {
-					continue
-				}
-				seen := map[string]bool{}
-				for _, s := range r.Sends {
-					if seen[s] {
-						c.Violation("concurrency", attrs("duplicate-delivery"), detail("publish delivered twice to "+s))
+					seen := map[string]bool{}
+					for _, s := range r.Sends {
+						if seen[s] {
+							c.Violation("concurrency", attrs("duplicate-delivery"), detail("publish delivered twice to "+s))
+							return
+						}
+						seen[s] = true
+					}
+					if r.Cnt != len(r.Sends) {
+						c.Violation("concurrency", attrs("count-vs-deliveries"), detail(fmt.Sprintf("publish returned %d but made %d deliveries", r.Cnt, len(r.Sends))))
 						return
 					}
-					seen[s] = true
 				}
-				if r.Cnt != len(r.Sends) {
-					c.Violation("concurrency", attrs("count-vs-deliveries"), detail(fmt.Sprintf("publish returned %d but made %d deliveries", r.Cnt, len(r.Sends))))
-					return
+				// final registry by a probe publish
+				w.probing = true
+				_, _ = w.root.AddEvent("*probe*", &c19EvRes{c19Events[0]})
+				w.probing = false
+				final := strings.Join(w.probeLog, ",")
+				alive := map[string]bool{}
+				for _, id := range w.probeLog {
+					alive[id] = true
 				}
-			}
-			// final registry by a probe publish
-			w.probing = true
-			_, _ = w.root.AddEvent("*probe*", &c19EvRes{c19Events[0]})
-			w.probing = false
-			final := strings.Join(w.probeLog, ",")
-			alive := map[string]bool{}
-			for _, id := range w.probeLog {
-				alive[id] = true
-			}
-			// (2) clean-up at most once; exactly once if gone at the end
-			known := map[string]bool{}
-			for i := range sc.Initial {
-				known[fmt.Sprintf("i%d", i)] = true
-			}
-			for _, r := range recs {
-				if r.Call.Kind == "subscribe" && !r.Err {
-					known[r.NewSub] = true
+				// (2) clean-up at most once; exactly once if gone at the end
+				known := map[string]bool{}
+				for i := range sc.Initial {
+					known[fmt.Sprintf("i%d", i)] = true
 				}
-			}
-			for id := range known {
-				n := len(w.cleanups[id])
-				if n > 1 {
-					c.Violation("concurrency", attrs("double-cleanup"), detail(fmt.Sprintf("clean-up of %s called %d times", id, n)))
-					return
+				for _, r := range recs {
+					if r.Call.Kind == "subscribe" && !r.Err {
+						known[r.NewSub] = true
+					}
 				}
-				if !alive[id] && n != 1 {
-					c.Violation("concurrency", attrs("missing-cleanup"), detail(fmt.Sprintf("%s is no longer registered but its clean-up was called %d times", id, n)))
-					return
+				for id := range known {
+					n := len(w.cleanups[id])
+					if n > 1 {
+						c.Violation("concurrency", attrs("double-cleanup"), detail(fmt.Sprintf("clean-up of %s called %d times", id, n)))
+						return
+					}
+					if !alive[id] && n != 1 {
+						c.Violation("concurrency", attrs("missing-cleanup"), detail(fmt.Sprintf("%s is no longer registered but its clean-up was called %d times", id, n)))
+						return
+					}
+					if alive[id] && n != 0 {
+						c.Violation("concurrency", attrs("cleanup-of-live-subscriber"), detail(fmt.Sprintf("%s is still registered but was cleaned up", id)))
+						return
+					}
 				}
-				if alive[id] && n != 0 {
-					c.Violation("concurrency", attrs("cleanup-of-live-subscriber"), detail(fmt.Sprintf("%s is still registered but was cleaned up", id)))
-					return
+				// (3) no delivery after the unsubscribe call that removed the subscriber returned
+				for _, r := range recs {
+					if r.Call.Kind != "unsubscribe" {
+						continue
+					}
+					for _, id := range r.Cleanups {
+						for _, s := range w.sends {
+							if s.Sub == id && s.Time > r.End {
+								c.Violation("concurrency", attrs("delivery-after-unsubscribe"), detail(fmt.Sprintf("%s received a message at %d after the unsubscribe that removed it returned at %d", id, s.Time, r.End)))
+								return
+							}
+						}
+					}
 				}
-			}
-			// (3) no delivery after the unsubscribe call that removed the subscriber returned
-			for _, r := range recs {
-				if r.Call.Kind != "unsubscribe" {
-					continue
-				}
-				for _, id := range r.Cleanups {
-					for _, s := range w.sends {
-						if s.Sub == id && s.Time > r.End {
-							c.Violation("concurrency", attrs("delivery-after-unsubscribe"), detail(fmt.Sprintf("%s received a message at %d after the unsubscribe that removed it returned at %d", id, s.Time, r.End)))
+				// (4) a publish started after a subscribe returned reaches the subscriber if it stays registered
+				for _, sr := range recs {
+					if sr.Call.Kind != "subscribe" || sr.Err {
+						continue
+					}
+					for _, pr := range recs {
+						if pr.Call.Kind != "publish" || pr.Start < sr.End || !(sr.Call.ID == "" || sr.Call.ID == pr.Call.ID) {
+							continue
+						}
+						removedBefore := false
+						for _, t := range w.cleanups[sr.NewSub] {
+							if t < pr.End {
+								removedBefore = true
+							}
+						}
+						if removedBefore {
+							continue
+						}
+						got := false
+						for _, s := range pr.Sends {
+							if s == sr.NewSub {
+								got = true
+							}
+						}
+						if !got {
+							c.Violation("concurrency", attrs("published-event-missed-subscriber"), detail(fmt.Sprintf("publish started at %d after subscribe of %s returned at %d but did not deliver to it", pr.Start, sr.NewSub, sr.End)))
 							return
 						}
 					}
 				}
-			}
-			// (4) a publish started after a subscribe returned reaches the subscriber if it stays registered
-			for _, sr := range recs {
-				if sr.Call.Kind != "subscribe" || sr.Err {
-					continue
+				// (5) final registry = some sequential order consistent with real time; failure-free: the whole history linearizable
+				var initRecs []*c20CallRec
+				for i, s := range sc.Initial {
+					initRecs = append(initRecs, &c20CallRec{Call: c20Call{Kind: "subscribe", ID: s.ID, Sub: s.Kind}, NewSub: fmt.Sprintf("i%d", i)})
 				}
-				for _, pr := range recs {
-					if pr.Call.Kind != "publish" || pr.Start < sr.End || !(sr.Call.ID == "" || sr.Call.ID == pr.Call.ID) {
-						continue
+				found := c20Linearizations(recs, func(order []*c20CallRec) bool {
+					m := &c20Model{}
+					for _, r := range initRecs {
+						m.apply(r)
 					}
-					removedBefore := false
-					for _, t := range w.cleanups[sr.NewSub] {
-						if t < pr.End {
-							removedBefore = true
+					for _, r := range order {
+						cnt, sends := m.apply(r)
+						if failureFree && r.Call.Kind != "subscribe" {
+							if cnt != r.Cnt {
+								return false
+							}
+							if r.Call.Kind == "publish" && strings.Join(sends, ",") != strings.Join(r.Sends, ",") {
+								return false
+							}
 						}
 					}
-					if removedBefore {
-						continue
+					return m.live() == final
+				})
+				if !found {
+					what := "final-registry-not-sequential"
+					if failureFree {
+						what = "not-linearizable"
 					}
-					got := false
-					for _, s := range pr.Sends {
-						if s == sr.NewSub {
-							got = true
-						}
-					}
-					if !got {
-						c.Violation("concurrency", attrs("published-event-missed-subscriber"), detail(fmt.Sprintf("publish started at %d after subscribe of %s returned at %d but did not deliver to it", pr.Start, sr.NewSub, sr.End)))
-						return
-					}
+					c.Outcome(what)
+					c.Violation("concurrency", attrs(what), detail("no sequential order of the calls consistent with real time explains the outcome; final registry = ["+final+"]"))
+					return
 				}
-			}
-			// (5) final registry = some sequential order consistent with real time; failure-free: the whole history linearizable
-			var initRecs []*c20CallRec
-			for i, s := range sc.Initial {
-				initRecs = append(initRecs, &c20CallRec{Call: c20Call{Kind: "subscribe", ID: s.ID, Sub: s.Kind}, NewSub: fmt.Sprintf("i%d", i)})
-			}
-			found := c20Linearizations(recs, func(order []*c20CallRec) bool {
-				m := &c20Model{}
-				for _, r := range initRecs {
-					m.apply(r)
-				}
-				for _, r := range order {
-					cnt, sends := m.apply(r)
-					if failureFree && r.Call.Kind != "subscribe" {
-						if cnt != r.Cnt {
-							return false
-						}
-						if r.Call.Kind == "publish" && strings.Join(sends, ",") != strings.Join(r.Sends, ",") {
-							return false
-						}
-					}
-				}
-				return m.live() == final
+				outcomes[final+"|"+fmt.Sprint(len(w.sends))] = true
+				c.Outcome("safe")
 			})
-			if !found {
-				what := "final-registry-not-sequential"
-				if failureFree {
-					what = "not-linearizable"
-				}
-				c.Outcome(what)
-				c.Violation("concurrency", attrs(what), detail("no sequential order of the calls consistent with real time explains the outcome; final registry = ["+final+"]"))
-				return
+			if ex.Capped {
+				c.Cap(fmt.Sprintf("scenario %q capped at %d schedules", sc.Name, nsched))
 			}
-			outcomes[final+"|"+fmt.Sprint(len(w.sends))] = true
-			c.Outcome("safe")
-		})
-		if ex.Capped {
-			c.Cap(fmt.Sprintf("scenario %q capped at %d schedules", sc.Name, nsched))
-		}
-		if nsched > maxSched {
-			maxSched = nsched
+			if nsched > maxSched {
+				maxSched = nsched
+			}
 		}
 		c.CountN("distinct_final_outcomes", int64(len(outcomes)))
-		c.Sample(func() interface{} { return map[string]interface{}{"scenario": sc.Name, "schedules": nsched, "distinct_outcomes": len(outcomes)} })
+		c.Sample(func() interface{} {
+			return map[string]interface{}{"scenario": sc.Name, "distinct_outcomes": len(outcomes)}
+		})
 	}
 	if c.Shard == 0 {
 		racePass(c, "c20")
 	}
-	c.R.Bound = fmt.Sprintf("%d scenarios x {Resolver events, reflection events}; preemption bound %d; Lock-only choice points; + free-running race pass", len(scenarios), bound)
+	bs := fmt.Sprintf("preemption bound %d", bound)
+	if bound < 0 {
+		bs = "ALL interleavings (no preemption bound)"
+	}
+	c.R.Bound = fmt.Sprintf("%d scenarios x {Resolver events, reflection events}; %s; Lock-only choice points (thorough: + a pass with Unlock as a choice point at preemption bound 2); happens-before race check on every schedule; + free-running race pass", len(scenarios), bs)
 	if !completed {
 		c.Cap("deadline reached")
 	}
